@@ -49,6 +49,7 @@ type Scenario struct {
 	Tree        string     `json:"tree,omitempty"`
 	Class       string     `json:"class,omitempty"`
 	OddHashes   bool       `json:"odd_hashes,omitempty"`   // a third of the leaf hashes start or end with 12..28 zero / 0xff bytes
+	NodeHashLeaf bool      `json:"node_hash_leaf,omitempty"` // an added leaf may carry the hash of an internal node of the forest
 	ReAdd       bool       `json:"readd,omitempty"`        // added leaves may repeat the hash of a deleted leaf
 	PrefixShare bool       `json:"prefix_share,omitempty"` // all leaf hashes of the run agree in their first 27 bytes (profiles without pointer forests only)
 	Forged      int        `json:"forged,omitempty"`       // percent of block deliveries preceded by a forged (rejected) message
